@@ -97,6 +97,11 @@ def joint_ob(prog, cls, ctx, regime, prop_prefix="joint"):
               anchor, group=prop_prefix.split("/")[0])
 
 
+def _logdomain(prog):
+    from .common import logdomain_ob
+    return logdomain_ob(prog, "logdomain")
+
+
 def obligations(tier):
     prog = model.load()
     obs = []
@@ -104,9 +109,10 @@ def obligations(tier):
         for ctx in drivers.BATCH_CTX + drivers.ROUTE_CTX:
             for regime in (["Dx<=Dy"] if drivers.is_identity(cls) else drivers.REGIMES):
                 obs.append(joint_ob(prog, cls, ctx, regime))
+    obs.append(_logdomain(prog))
     return obs
 
 
-FLOORS = {"group:joint": 18}
+FLOORS = {"group:joint": 18, "group:logdomain": 1}
 LEVEL = "proof"
 EXPLANATION = "affine_joint_transformation of every linear conditional class interpreted in the contexts (Rc,Rx) in {1/1,n/1,1/n} x {Dx>Dy, Dx<=Dy}."
